@@ -49,6 +49,14 @@ class MarkerSet:
                 if label not in found:
                     self.missing.append((m.func.__qualname__, label))
             self.by_code[code] = table
+            # functions and comprehensions nested in the marked function run under their own code objects; the table
+            # holds absolute line numbers, so it serves them too
+            stack = [code]
+            while stack:
+                for const in stack.pop().co_consts:
+                    if hasattr(const, "co_consts"):
+                        self.by_code.setdefault(const, table)
+                        stack.append(const)
 
     def label(self, code, lineno):
         t = self.by_code.get(code)
